@@ -557,6 +557,106 @@ fn hash_prog(b: &[MStmt]) -> u64 {
 }
 
 // ---------------------------------------------------------------------------------------------
+// the canonical stream of a flat statement list, computed from the implementation's own passes:
+// desugar_blocks::run (for a structured program), then the time pass; labels are resolved to
+// (number of instructions before the label, time of the label).  Must agree with Model/Structure.v: canon_of.
+
+#[derive(Clone, Debug, PartialEq)]
+enum CKind { U, If(MCond), Unless(MCond) }
+#[derive(Clone, Debug, PartialEq)]
+enum CBody { Ins(usize, Vec<Option<(u64, i64)>>), Intr(usize), Jump(CKind, Option<(u64, i64)>, Option<i64>) }
+type CItem = (i64, Option<usize>, CBody);
+
+fn canon_flat(stmts: &[truth::Sp<ast::Stmt>], ctx: &truth::CompilerContext<'_>, it: &mut Interner) -> Result<Vec<CItem>, String> {
+    let data = passes::semantics::time_and_difficulty::run(stmts, ctx.emitter).map_err(|_| "time pass failed".to_string())?;
+    let time_of = |s: &truth::Sp<ast::Stmt>| -> Result<i64, String> {
+        let id = s.node_id.ok_or_else(|| "statement without node id".to_string())?;
+        Ok(data[&id].time as i64)
+    };
+    // first walk: label positions
+    let mut env: HashMap<String, (u64, i64)> = HashMap::new();
+    let mut idx = 0u64;
+    for s in stmts {
+        match &s.kind {
+            ast::StmtKind::Label(l) => { env.entry(l.value.as_str().to_string()).or_insert((idx, time_of(s)?)); },
+            ast::StmtKind::NoInstruction | ast::StmtKind::AbsTimeLabel(_) | ast::StmtKind::RelTimeLabel { .. } | ast::StmtKind::ScopeEnd(_) => {},
+            _ => idx += 1,
+        }
+    }
+    let mut out = vec![];
+    for s in stmts {
+        let d = it.diff(&s.value);
+        let t = time_of(s)?;
+        let jump = |it: &mut Interner, keyword: Option<(bool, &ast::Expr)>, j: &ast::StmtJumpKind| -> Result<CBody, String> {
+            let g = match j { ast::StmtJumpKind::Goto(g) => g, _ => return Err("break/continue after desugaring".into()) };
+            let kind = match keyword {
+                None => CKind::U,
+                Some((true, c)) => CKind::If(it.cond(c)),
+                Some((false, c)) => match it.cond(c) {
+                    // `unless (a op b)` is lowered as `if (a negop b)`; a count-jump form is not (it does not compile at all)
+                    MCond::Bin(false, op, a, b) => match op.negate_comparison() { Some(n) => CKind::If(MCond::Bin(false, n, a, b)), None => CKind::Unless(MCond::Bin(false, op, a, b)) },
+                    other => CKind::Unless(other),
+                },
+            };
+            Ok(CBody::Jump(kind, env.get(g.destination.value.as_str()).copied(), g.time.as_ref().map(|x| x.value as i64)))
+        };
+        match &s.kind {
+            ast::StmtKind::Label(_) | ast::StmtKind::NoInstruction | ast::StmtKind::AbsTimeLabel(_) | ast::StmtKind::RelTimeLabel { .. } | ast::StmtKind::ScopeEnd(_) => {},
+            ast::StmtKind::Jump(j) => { let b = jump(it, None, j)?; out.push((t, d, b)); },
+            ast::StmtKind::CondJump { keyword, cond, jump: j } => {
+                let is_if = truth::fmt::stringify(&keyword.value) == "if";
+                let b = jump(it, Some((is_if, &cond.value)), j)?; out.push((t, d, b));
+            },
+            _ => match it.stmt(&s.value) {
+                MStmt::Ins(_, i, refs) => {
+                    let names: HashMap<usize, String> = it.labels.iter().map(|(k, v)| (*v, k.clone())).collect();
+                    out.push((t, d, CBody::Ins(i, refs.iter().map(|r| names.get(r).and_then(|n| env.get(n)).copied()).collect())));
+                },
+                MStmt::Intr(_, n) => out.push((t, d, CBody::Intr(n))),
+                other => return Err(format!("unexpected statement in a flat stream: {:?}", other)),
+            },
+        }
+    }
+    Ok(out)
+}
+
+fn e_state(x: &Option<(u64, i64)>, o: &mut Vec<u64>) { match x { None => o.push(0), Some((i, t)) => { o.push(1); o.push(*i); e_z(*t, o); } } }
+fn hash_canon(items: &[CItem]) -> u64 {
+    let mut o = vec![items.len() as u64];
+    for (t, d, b) in items {
+        e_z(*t, &mut o); e_diff(d, &mut o);
+        match b {
+            CBody::Ins(i, refs) => { o.push(0); o.push(*i as u64); o.push(refs.len() as u64); for r in refs { e_state(r, &mut o); } },
+            CBody::Intr(n) => { o.push(1); o.push(*n as u64); },
+            CBody::Jump(k, tgt, ex) => {
+                o.push(2);
+                match k { CKind::U => o.push(0), CKind::If(c) => { o.push(1); e_cond(c, &mut o); }, CKind::Unless(c) => { o.push(2); e_cond(c, &mut o); } }
+                e_state(tgt, &mut o);
+                match ex { None => o.push(0), Some(t) => { o.push(1); e_z(*t, &mut o); } }
+            },
+        }
+    }
+    let mut h: u128 = 7;
+    for t in o { h = (h * 1000003 + t as u128 + 1) % HASH_P; }
+    h as u64
+}
+
+/// canonical stream of a decompiled function body: desugar (if it has blocks), fill node ids, time pass, resolve
+fn canon_of_file(truth: &mut truth::Truth, file: &ast::ScriptFile, h: Host, it: &mut Interner) -> Result<Vec<CItem>, String> {
+    let mut f = file.clone();
+    let ctx = truth.ctx();
+    let lang = match h { Host::Anm => truth::LanguageKey::Anm, Host::Ecl => truth::LanguageKey::Ecl };
+    let r = catch(|| -> Result<(), String> {
+        passes::desugar_blocks::run(&mut f, ctx, lang).map_err(|_| "desugar_blocks::run reports an error".to_string())?;
+        passes::resolution::fill_missing_node_ids(&mut f, &ctx.unused_node_ids).map_err(|_| "fill_missing_node_ids".to_string())?;
+        Ok(())
+    });
+    match r { Ok(Ok(())) => {}, Ok(Err(e)) => return Err(e), Err(p) => return Err(format!("PANIC in desugar_blocks: {}", p)) }
+    let body = body_of(&f, h).ok_or_else(|| "no body".to_string())?;
+    match catch(|| canon_flat(&body.0, ctx, it)) { Ok(r) => r, Err(p) => Err(format!("PANIC while canonicalising: {}", p)) }
+}
+
+// ---------------------------------------------------------------------------------------------
 // (d) loop ids
 
 fn check_loop_ids(b: &ast::Block, enclosing: Option<String>, seen: &mut HashSet<String>, problems: &mut Vec<String>) {
@@ -665,7 +765,19 @@ fn run_case(h: Host, body: &str, tag: &str, rng: &mut Rng) -> Outcome {
     let (nl, nc, nb, nj) = count_shapes(&s_term);
     out.n_loops = nl; out.n_chains = nc; out.n_breaks = nb; out.residual_gotos = nj;
     // the compact case: the flat stream as a term, the implementation's five results as hashes of their token encoding
-    out.case = Some(format!("KHash {} [{}%N; {}%N; {}%N; {}%N; {}%N]", t_block(&f_m), hash_prog(&steps[0]), hash_prog(&steps[1]), hash_prog(&steps[2]), hash_prog(&steps[3]), hash_prog(&s_m)));
+    // the implementation's own flattening of both programs (desugar_blocks + time pass), canonicalised
+    let hc_f = match canon_of_file(&mut truth_f, &file_f, h, &mut it) {
+        Ok(c) => hash_canon(&c),
+        Err(e) => { out.fails.push(("cannot canonicalise the flat decompilation (harness assumption broken)".into(), e)); 0 },
+    };
+    let hc_s = match &file_s {
+        Some(fs) => match canon_of_file(&mut truth_s, fs, h, &mut it) {
+            Ok(c) => hash_canon(&c),
+            Err(e) => { out.fails.push(("desugar_blocks / time pass fail on the reconstructed program".into(), e)); 0 },
+        },
+        None => 0,
+    };
+    out.case = Some(format!("KHash {} [{}%N; {}%N; {}%N; {}%N; {}%N; {}%N; {}%N]", t_block(&f_m), hash_prog(&steps[0]), hash_prog(&steps[1]), hash_prog(&steps[2]), hash_prog(&steps[3]), hash_prog(&s_m), hc_f, hc_s));
     out.full = Some(format!("KStruct {} {} {} {} {} {}", t_block(&f_m), t_block(&steps[0]), t_block(&steps[1]), t_block(&steps[2]), t_block(&steps[3]), s_term));
 
     // (d) loop ids
@@ -740,7 +852,8 @@ fn report(h: Host, body: &str, o: &Outcome, full: bool) {
         else { println!("NOTE\tAstVm differs on a program whose clock runs ahead of the text (explicit @time / absolute time label)\t{}\t{}", esc(d), src); }
     }
     if let Some(c) = &o.case {
-        if full { println!("STRUCT\t{}\t{}\t{}", c, src, o.full.as_deref().unwrap_or("")); } else { println!("STRUCT\t{}\t{}", c, src); }
+        if full { println!("STRUCT\t{}\t{}\t{}", c, src, o.full.as_deref().unwrap_or("")); }
+        else { println!("STRUCT\t{}\t{}\tshape:{}/{}/{}/{}", c, src, o.n_loops, o.n_chains, o.n_breaks, o.residual_gotos); }
     }
 }
 
@@ -761,12 +874,16 @@ fn main() {
                 let (prog, kind) = { let mut g = Gen { rng: &mut sub, host: h, next_label: 0, next_ins: 0, hist: &mut hist }; g.program() };
                 *kinds.entry(format!("{:?}:{}", h, kind)).or_insert(0) += 1;
                 let body = render(h, &prog);
-                let o = run_case(h, &body, &format!("g{}", i % 8), &mut sub);
+                let o = run_case(h, &body, &format!("g{}_{}", std::process::id(), i % 4), &mut sub);
                 if let Some(r) = &o.rejected { rejected += 1; if reject_samples.len() < 3 { reject_samples.push(esc(&r.chars().take(200).collect::<String>())); } }
                 vm_cmp += o.vm_compared as u64; vm_skip += o.vm_skipped as u64;
                 loops += o.n_loops; chains += o.n_chains; breaks += o.n_breaks; gotos += o.residual_gotos;
                 if o.n_loops + o.n_chains > 0 { structured += 1; }
                 report(h, &body, &o, false);
+            }
+            if let Ok(rd) = std::fs::read_dir(work_dir("c07")) {
+                let me = format!("g{}_", std::process::id());
+                for e in rd.flatten() { if e.file_name().to_string_lossy().starts_with(&me) { let _ = std::fs::remove_file(e.path()); } }
             }
             println!("STATS\tprograms={}\trejected={}\twith_blocks={}\tloops={}\tchains={}\tbreaks={}\tresidual_gotos={}\tvm_compared={}\tvm_not_executable={}\tkinds={:?}\tfeatures={:?}\treject_samples={:?}",
                      n, rejected, structured, loops, chains, breaks, gotos, vm_cmp, vm_skip, kinds, hist, reject_samples);
@@ -774,9 +891,13 @@ fn main() {
         Some("text") => {
             let h = match args.get(2).map(|s| s.as_str()) { Some("Ecl") | Some("ecl") => Host::Ecl, _ => Host::Anm };
             let body = std::fs::read_to_string(&args[3]).expect("read");
-            let o = run_case(h, &body, "t", &mut rng);
+            let o = run_case(h, &body, &format!("t{}", std::process::id()), &mut rng);
             if let Some(r) = &o.rejected { println!("REJECTED\t{}", esc(r)); }
             report(h, &body, &o, true);
+            if let Ok(rd) = std::fs::read_dir(work_dir("c07")) {
+                let me = format!("t{}_", std::process::id());
+                for e in rd.flatten() { if e.file_name().to_string_lossy().starts_with(&me) { let _ = std::fs::remove_file(e.path()); } }
+            }
         },
         _ => { eprintln!("usage: c07 gen <n> | text <Anm|Ecl> <file>"); std::process::exit(2); },
     }
